@@ -30,13 +30,21 @@ class Collect(logging.Handler):
             self.records.append((record.name, record.levelno, record.getMessage()))
 
 
+_NAMED = st.fixed_dictionaries({'c20.quiet': st.sampled_from([40, 40, 0, 10])}, optional={'c20': st.sampled_from([0, 10, 30]), 'c20.a': st.sampled_from([0, 10, 20, 40]), 'c20.b': st.sampled_from([0, 10, 20, 40])})
+_OLD_NAMED = {'c20.quiet': 40}  # what every case used before the named levels were generated (replay files without the key)
+
+
+def _cfg(spec):
+    return {'parent_level': spec['parent_level'], 'named_levels': spec.get('named_levels', _OLD_NAMED)}
+
+
 @st.composite
 def spec_strategy(draw):
     n = draw(st.sampled_from([0, 1, 3, 10, 50, 300, 1200, 2000]))
     size = draw(st.sampled_from([1, 20, 100, 2000, 20_000, 65_536]))
     while n * size > 8_000_000:
         n //= 2
-    return {
+    spec = {
         'mode': draw(st.sampled_from(['process', 'process', 'process', 'servlet', 'pool'])),
         'n': n,
         'size': size,
@@ -45,18 +53,27 @@ def spec_strategy(draw):
         'tail': draw(st.sampled_from(['last_statement', 'last_statement', 'then_sleep'])),
         'ending': draw(st.sampled_from(['return', 'return', 'raise', 'exit_n'])),
         'slow_ms': draw(st.sampled_from([0, 0, 0, 1, 5])) if n <= 1200 else draw(st.sampled_from([0, 0, 0, 1])),
-        'parent_level': draw(st.sampled_from([10, 10, 20, 30])),
+        'parent_level': draw(st.sampled_from([10, 10, 20, 30, 40])),
         'dup': draw(st.sampled_from([0, 0, 2, 3])),  # every 2nd/3rd record repeats the text of its predecessor
+        # levels of named loggers in the parent (0 = inherit): above or below the root's, on a leaf or on an inner node of the hierarchy
+        'named_levels': draw(_NAMED),
     }
+    if spec['mode'] == 'process' and spec['n'] >= 2 and draw(st.integers(0, 2)) == 0:
+        # the parent changes its level settings while the child is running (between two halves of the child's records)
+        spec['phase2'] = {'parent_level': draw(st.sampled_from([10, 20, 30, 40])), 'named_levels': draw(_NAMED)}
+    return spec
 
 
 def expected_records(spec):
     out = []
+    cfg = _cfg(spec)
     for i in range(spec['n']):
+        if spec.get('phase2') and i == spec['n'] // 2:
+            out.append(('c20.sync', 50, 'SYNC'))
+            cfg = spec['phase2']
         name = spec['names'][i % len(spec['names'])]
         lvl = spec['levels'][i % len(spec['levels'])]
-        eff = 40 if name == 'c20.quiet' else spec['parent_level']
-        if lvl >= eff:
+        if lvl >= targets.effective_level(name, cfg):
             out.append((name, lvl, targets.log_message(i, spec['size'], spec.get('dup', 0))))
     return out
 
@@ -68,8 +85,7 @@ def run_case(spec):
     h = Collect(spec['slow_ms'])
     old_level = root.level
     root.addHandler(h)
-    root.setLevel(spec['parent_level'])
-    logging.getLogger('c20.quiet').setLevel(logging.ERROR)
+    targets.apply_parent_levels(_cfg(spec))
     try:
         try:
             res = run_with_watchdog(lambda: targets.log_case(spec), budget_s=20 if spec['n'] * max(1, spec['slow_ms']) < 1500 else 40, what=f"logging child ({spec['mode']}, {spec['n']}x{spec['size']}B)", signature=['hang', spec['mode']])
@@ -83,7 +99,7 @@ def run_case(spec):
         got = list(h.records)
     finally:
         root.removeHandler(h)
-        root.setLevel(old_level)
+        targets.apply_parent_levels({'parent_level': old_level, 'named_levels': {}})
     if res.get('error'):
         raise Violation(res['error'][0], res['error'][1], signature=[res['error'][0], spec['mode']])
     if res.get('handled_at_return') is not None and res['handled_at_return'] < len(want) and got == want:
@@ -98,7 +114,7 @@ def run_case(spec):
     return CaseInfo(
         nontrivial=total > 65536 or (spec['tail'] == 'last_statement' and spec['n'] > 0),
         descriptor={k: v for k, v in spec.items()},
-        classes=(spec['mode'], 'beyond_pipe_buffer' if total > 65536 else 'small', spec['tail'], spec['ending'], 'slow_handler' if spec['slow_ms'] else 'fast_handler'),
+        classes=(spec['mode'], 'beyond_pipe_buffer' if total > 65536 else 'small', spec['tail'], spec['ending'], 'slow_handler' if spec['slow_ms'] else 'fast_handler', 'levels_change_midway' if spec.get('phase2') else 'levels_fixed', 'named_below_root' if any(0 < v < spec['parent_level'] for v in _cfg(spec)['named_levels'].values()) else 'named_not_below_root'),
         metrics={'bytes': total, 'records': len(want)},
         sample={k: v for k, v in spec.items()},
     )
@@ -106,8 +122,8 @@ def run_case(spec):
 
 RULE = (
     'child started as mpservice Process / as a ProcessServlet worker / in a ProcessPoolExecutor emits 0-2000 records of 1 B-64 kB (total up to 8 MB) with generated logger names and levels; '
-    'the last record is the last statement of the target or is followed by a sleep; the target returns, raises or sys.exit(n); the parent handler is immediate or slow (1 or 5 ms per record); parent level DEBUG/INFO/WARNING, one logger raised to ERROR. '
-    'Oracle: the parent-side collecting handler holds exactly the emitted records that pass the parent levels, once each, in emission order; join()/result() return, and (direct Process) all records have been handled when result() returns or raises. '
+    'the last record is the last statement of the target or is followed by a sleep; the target returns, raises or sys.exit(n); the parent handler is immediate or slow (1 or 5 ms per record); parent root level DEBUG..ERROR, levels of named loggers (leaf and inner node of the hierarchy) above or below that of the root, or inherited; in 1/3 of the direct-Process cases the parent changes all these settings once while the child runs (between the two halves of the records of the child, synchronised by a CRITICAL marker record and an Event). '
+    'Oracle: the parent-side collecting handler holds exactly the emitted records that pass the parent levels in force when they were emitted (the documented effective-level rule of logging, written out in targets.effective_level), once each, in emission order; join()/result() return, and (direct Process) all records have been handled when result() returns or raises. '
     'Non-trivial: total bytes > 64 kB or the last record is emitted immediately before the end; distinct by case.'
 )
 
